@@ -362,6 +362,18 @@ class C09:
             r = S.run(["dec pk2xy %s" % tb(pk)], label="triv")[0]
             xy = r.b(0)
             add("pkxy", bytes([0x40]) + bytes(191), True, "identity-pk-xy")
+            # exponents / scalars with special OCTET patterns are ordinary values: octets that XOR or sum to zero, equal octets,
+            # a single low octet -- a decoder that screens the raw octets must not mistake them for the zero scalar
+            pats = [bytes(30) + b"\x01\x01", bytes([0x55]) * 32, bytes(29) + b"\x01\x02\x03", bytes(31) + b"\x01", bytes(16) + bytes([0x40]) * 16,
+                    b"\x01" + bytes(30) + b"\x01", bytes(28) + b"\xff\x01\xff\x01"]
+            okl = []
+            for pt_ in pats:
+                okl += ["dec sig %s" % tb(sig[:48] + pt_), "dec sk %s" % tb(pt_), "dec blind %s" % tb(pt_),
+                        "dec proof %s" % tb(pr[:144] + pt_ + pr[176:]), "dec commit %s" % tb(cwp[:48] + pt_ + cwp[80:])]
+            ro = S.run(okl, expect="ok", label="special-octet-pattern-scalar")
+            for l_, r_ in zip(okl, ro):
+                if r_.status == "OK" and r_.b(0) != bytes.fromhex(l_.split(" ")[2]):
+                    P.fail(S, "roundtrip", "a scalar with a special octet pattern re-encodes differently", [l_[:120]])
             # the OTHER serialisation of the same object handed to the octet decoders: a second octet string for one object
             for sk_, pk_ in keys:
                 rxy = S.run(["dec pk2xy %s" % tb(pk_)], label="triv")[0]
@@ -588,6 +600,13 @@ class C11:
             ids += [(s, pyc.API[s]), (s, pyc.API_BLIND[s]), (s, b"BLIND_" + pyc.API_BLIND[s])]
         shared = P.rb(rng, 24)
         ids += [("sha", b""), ("shake", b""), ("shake", b"x"), ("sha", b"x"), ("sha", shared), ("shake", shared), ("sha", P.rb(rng, 40))]
+        # an ABSENT api_id is the empty one: same generators as Some(b""), disjoint from every interface's
+        absent = {}
+        for s_ in P.SUITES:
+            ra = S.run(["gens %s 6 N" % s_, "gens %s 6 S" % s_], expect="ok", label="gens-absent-api-id")
+            if ra[0].status == "OK" and ra[1].status == "OK":
+                if ra[0].b(1) != ra[1].b(1): P.fail(S, "gens-absent", "create(n, absent api_id) differs from create(n, empty api_id)", [s_])
+                absent[s_] = [ra[0].b(1)[i:i+48] for i in range(0, len(ra[0].b(1)), 48)]
         # long interface ids that differ only in their LAST octets (a tag built by truncating the id would merge them)
         small = {}
         for Lid in ([100, 237, 238, 240] if tier == "quick" else [64, 100, 180, 200, 230, 236, 237, 238, 239, 240, 250]):
@@ -614,6 +633,7 @@ class C11:
             for q in pts:
                 if q in allpts and allpts[q] != (s, api): P.fail(S, "gens-shared", "generator shared between (suite, interface id) pairs", [s, api.hex(), allpts[q][0], allpts[q][1].hex()])
                 allpts[q] = (s, api)
+                if api and q in absent.get(s, []): P.fail(S, "gens-shared", "a generator of the ABSENT api_id belongs to interface id " + api.hex(), [s])
         # cross (suite, interface) replays
         lines = []; labs = []
         def add(l, lab): lines.append(l); labs.append(lab)
